@@ -1,8 +1,8 @@
 (* C08 — property theorems only. Each is closed by [exact] of a lemma of the Proofs_* files. *)
 From Coq Require Import Ascii String.
 From Coq Require Import List ZArith QArith Bool.
-From Gst Require Import C08.Codec C08.Model C08.Model_db C08.Model_vario C08.Model_model.
-From Gst Require Import C08.Proofs_codec C08.Proofs_basic C08.Proofs_db C08.Proofs_vario C08.Proofs_model.
+From Gst Require Import C08.Codec C08.Model C08.Model_db C08.Model_vario C08.Model_model C08.Model_more.
+From Gst Require Import C08.Proofs_codec C08.Proofs_basic C08.Proofs_db C08.Proofs_vario C08.Proofs_model C08.Proofs_more.
 Import ListNotations.
 Local Open Scope string_scope.
 Local Open Scope list_scope.
@@ -269,6 +269,34 @@ Theorem C08_Model_refuted_means :
   option_map md_means (reload "Model" ser_Model (deser_Model (fun _ => true) (fun _ => false)) o) = Some [Some 0%Q].
 Proof. vm_compute. reflexivity. Qed.
 
+(* ---- AnamEmpirical: any number of discretisation points (at least one); the two flags that are never written must
+   have their default value *)
+Theorem C08_AnamEmpirical_roundtrip : forall o, wf_AnamEmpirical o ->
+  reload "AnamEmpirical" ser_AnamEmpirical deser_AnamEmpirical o = Some o.
+Proof. intros o H. apply roundtrip_of_reads; [reflexivity | apply good_AnamEmpirical | apply AnamEmpirical_reads; exact H]. Qed.
+Print Assumptions C08_AnamEmpirical_roundtrip.
+Theorem C08_AnamEmpirical_rewrite : forall o o', wf_AnamEmpirical o ->
+  reload "AnamEmpirical" ser_AnamEmpirical deser_AnamEmpirical o = Some o' ->
+  file "AnamEmpirical" ser_AnamEmpirical o' = file "AnamEmpirical" ser_AnamEmpirical o.
+Proof. intros o o' H. apply rewrite_of_roundtrip. apply C08_AnamEmpirical_roundtrip; exact H. Qed.
+(* the dilution flag is not written *)
+Theorem C08_AnamEmpirical_refuted_flags :
+  let c := {| ac_azmin := None; ac_azmax := None; ac_aymin := None; ac_aymax := None; ac_pzmin := None; ac_pzmax := None;
+              ac_pymin := None; ac_pymax := None; ac_mean := None; ac_variance := None |} in
+  let o := {| ae_cont := c; ae_sigma2e := Some (1#8)%Q; ae_z := [Some 1%Q]; ae_y := [Some 0%Q]; ae_dilution := true; ae_gaussian := false |} in
+  option_map (fun o => (ae_dilution o, ae_gaussian o)) (reload "AnamEmpirical" ser_AnamEmpirical deser_AnamEmpirical o) = Some (false, true).
+Proof. vm_compute. reflexivity. Qed.
+
+(* ---- MeshETurbo: any dimension (at least 1), any grid, with or without masks on meshes / grid nodes *)
+Theorem C08_MeshETurbo_roundtrip : forall o, wf_MeshETurbo o ->
+  reload "MeshETurbo" ser_MeshETurbo deser_MeshETurbo o = Some o.
+Proof. intros o H. apply roundtrip_of_reads; [reflexivity | apply good_MeshETurbo | apply MeshETurbo_reads; exact H]. Qed.
+Print Assumptions C08_MeshETurbo_roundtrip.
+Theorem C08_MeshETurbo_rewrite : forall o o', wf_MeshETurbo o ->
+  reload "MeshETurbo" ser_MeshETurbo deser_MeshETurbo o = Some o' ->
+  file "MeshETurbo" ser_MeshETurbo o' = file "MeshETurbo" ser_MeshETurbo o.
+Proof. intros o o' H. apply rewrite_of_roundtrip. apply C08_MeshETurbo_roundtrip; exact H. Qed.
+
 (* ======================================================================= non-vacuity *)
 Example C08_nonvacuous_lex :
   let rs := [RTag (W "X"); r_int "Space Dimension" 2; r_int "" 3; r_int "" ITEST; r_com "a title # with hash";
@@ -403,4 +431,27 @@ Proof.
       split; [reflexivity|]. split; [fa; split; [reflexivity | fa; wd]|]. reflexivity. }
   split; [split; [reflexivity | fa; wd]|].
   split; [reflexivity|]. fa; split; [reflexivity | fa; wd].
+Qed.
+Example C08_nonvacuous_AnamEmpirical :
+  let c := {| ac_azmin := Some 0%Q; ac_azmax := Some 9%Q; ac_aymin := Some (-3)%Q; ac_aymax := Some 3%Q; ac_pzmin := None; ac_pzmax := None;
+              ac_pymin := None; ac_pymax := None; ac_mean := Some (3#2)%Q; ac_variance := Some 2%Q |} in
+  let o := {| ae_cont := c; ae_sigma2e := None; ae_z := [Some 1%Q; Some (5#2)%Q; Some 7%Q]; ae_y := [Some (-1)%Q; Some 0%Q; Some (3#2)%Q];
+              ae_dilution := false; ae_gaussian := true |} in
+  wf_AnamEmpirical o /\ reload "AnamEmpirical" ser_AnamEmpirical deser_AnamEmpirical o = Some o.
+Proof.
+  cbv zeta. split; [|vm_compute; reflexivity].
+  unfold wf_AnamEmpirical, wf_acont; cbn [ae_cont ae_sigma2e ae_z ae_y ae_dilution ae_gaussian ac_azmin ac_azmax ac_aymin ac_aymax ac_pzmin ac_pzmax ac_pymin ac_pymax ac_mean ac_variance].
+  split. { repeat split; wd. }
+  split; [wd|]. split; [discriminate|]. split; [reflexivity|]. split; [fa; wd|]. split; [fa; wd|]. split; reflexivity.
+Qed.
+Example C08_nonvacuous_MeshETurbo :
+  let o := {| mt_nx := [3; 4]; mt_dx := [Some 1%Q; Some (1#2)%Q]; mt_x0 := [Some 10%Q; Some (-5)%Q];
+              mt_rotmat := [Some (4#5)%Q; Some (3#5)%Q; Some (-3#5)%Q; Some (4#5)%Q]; mt_polar := true; mt_mode := 1;
+              mt_mesh_mask := [0; 2; 5]; mt_grid_mask := [] |} in
+  wf_MeshETurbo o /\ reload "MeshETurbo" ser_MeshETurbo deser_MeshETurbo o = Some o.
+Proof.
+  cbv zeta. split; [|vm_compute; reflexivity].
+  unfold wf_MeshETurbo; cbn [mt_nx mt_dx mt_x0 mt_rotmat].
+  split; [discriminate|]. split; [reflexivity|]. split; [reflexivity|]. split; [reflexivity|].
+  split; [fa; wd|]. split; fa; wd.
 Qed.
